@@ -583,7 +583,10 @@ def resample(sig, old=1, new=1, order=3, zero=0.):
   threshold = .5 * (order + 1)
   step = old / new
   data = deque([zero] * (order + 1), maxlen=order + 1)
-  data.extend(sig.take(rint(threshold)))
+  first = sig.take(rint(threshold))
+  if len(first) < rint(threshold): # Too short input: nothing to interpolate
+    return
+  data.extend(first)
   idx = int(threshold)
   isig = iter(sig)
   try:
